@@ -623,3 +623,53 @@ def check_vector_wrap_numpy(run, tree):
             run.violated(construct, "src/osyris/core/vector.py", "raises %s" % e, "np.<f> on Vectors")
         except ERR as e:
             run.unresolved(construct, "src/osyris/core/vector.py", "cannot fold: %s" % e)
+
+
+# =============================================================================== Vector construction
+def check_vector_constructor(run, tree):
+    hooks = core_hooks()
+    vi = tree.cls(VECTOR_Q)
+    init = tree.method(vi, "__init__")
+    run.analysed(init)
+    ev = ModelEval(tree, init, {}, hooks)
+
+    def A_(tag, unit="m", n=3):
+        return ArrTok(tag, unit, (n,))
+
+    def state(v):
+        return {c: (a.origin, a.unit.name) for c, a in vector_components(tree, v, hooks).items()}
+    cases = [
+        ("three Arrays, same unit and shape", lambda: dict(x=A_("X"), y=A_("Y"), z=A_("Z")), {"x": ("X", "m"), "y": ("Y", "m"), "z": ("Z", "m")}, True),
+        ("two Arrays", lambda: dict(x=A_("X"), y=A_("Y")), {"x": ("X", "m"), "y": ("Y", "m")}, False),
+        ("y in another unit", lambda: dict(x=A_("X"), y=A_("Y", "cm"), z=A_("Z")), "raises ValueError", True),
+        ("z in another unit", lambda: dict(x=A_("X"), y=A_("Y"), z=A_("Z", "cm")), "raises ValueError", True),
+        ("y of another shape", lambda: dict(x=A_("X"), y=A_("Y", n=4), z=A_("Z")), "raises ValueError", True),
+        ("z of another shape", lambda: dict(x=A_("X"), y=A_("Y"), z=A_("Z", n=4)), "raises ValueError", True),
+        ("Arrays plus an explicit unit", lambda: dict(x=A_("X"), y=A_("Y"), unit="s"), "raises ValueError", False),
+        ("raw values with a unit", lambda: dict(x=RawTok("X"), y=RawTok("Y"), z=RawTok("Z"), unit="s"),
+         {"x": ("X", "s"), "y": ("Y", "s"), "z": ("Z", "s")}, True),
+    ]
+    for label, mk, want, nontrivial in cases:
+        construct = "%s.__init__[%s]" % (VECTOR_Q, label)
+        try:
+            try:
+                v = ev.instantiate(vi, [], mk(), None)
+                got = state(v)
+            except (Raised, ProgramRaised) as e:
+                got = "raises " + getattr(e, "name", str(e))
+            run.ob(construct, got == want, init.where(), "%s -> %s%s" % (label, got, "" if got == want else " (required %s)" % (want,)),
+                   "Vector(x_in_m, y_in_cm) or components of different lengths accepted; components mislabelled", nontrivial=nontrivial)
+        except ERR as e:
+            run.unresolved(construct, init.where(), "cannot fold: %s" % e)
+    for ncomp in (3, 2):
+        construct = "%s.unit.setter[%d components]" % (VECTOR_Q, ncomp)
+        try:
+            v = ev.instantiate(vi, [], dict(x=A_("X"), y=A_("Y"), **({"z": A_("Z")} if ncomp == 3 else {})), None)
+            ev.obj_setattr(v, "unit", "s", None)
+            got = {c: u for c, (o, u) in state(v).items()}
+            run.ob(construct, set(got.values()) == {"s"} and len(got) == ncomp, init.where(), "after v.unit = 's': %s" % got,
+                   "v.unit = u relabels only some components", nontrivial=ncomp == 3)
+        except (Raised, ProgramRaised) as e:
+            run.violated(construct, init.where(), "raises %s" % e, "v.unit = u")
+        except ERR as e:
+            run.unresolved(construct, init.where(), "cannot fold: %s" % e)
